@@ -36,7 +36,7 @@ func (p *Parser) findConvergenEntries() ([]*intfEntry, error) {
 		if !ok {
 			continue
 		}
-		if p.srcPath != p.fset.Position(obj.Pos()).Filename {
+		if f := p.fset.File(obj.Pos()); f == nil || p.srcPath != f.Name() {
 			// Skip other than the entry file.
 			continue
 		}
